@@ -33,4 +33,19 @@ def run(ctx):
     ctx.oracle_stream('token-offsets', d + '/tok1.verdicts', d + '/tok1.cases')
     ctx.oracle_stream('candidate-ranges', d + '/ranges.verdicts', d + '/ranges.cases')
     ctx.oracle_stream('candidate-ranges-storm', d + '/storm.verdicts', d + '/storm.cases')
+    # last clause of the property: a Match's Offset/Extent can always be used to slice the normalised input. The
+    # MultipleMatch cases of the C13 harness are run (child processes: a bad slice panics in a worker goroutine) and
+    # only the verdicts about extents and crashes are taken from them
+    rc, out = vcheck.sh([h, 'c13', str(ctx.seed), ctx.tier, d], timeout=3000)
+    if rc != 0:
+        ctx.gate_breaks.append('harness c13 failed: ' + out[-300:])
+    else:
+        with open(d + '/extents.verdicts', 'w') as f:
+            for l in open(d + '/c13.verdicts').read().split('\n'):
+                if not l:
+                    continue
+                if l.startswith('VIOL') and not ('outside the' in l or 'killed by a panic' in l or 'panicked' in l):
+                    l = 'OK 1'
+                f.write(l + '\n')
+        ctx.oracle_stream('match-extents-slice-the-input', d + '/extents.verdicts', d + '/c13.cases')
     ctx.cov['distinct_nontrivial'] = sum(v['nontrivial'] for v in ctx.cov['streams'].values())
